@@ -200,6 +200,70 @@ func genClusterTables(repo string) (string, error) {
 		})
 	}
 	sb.WriteString("(* quantile.E2eProcessingLatencyAggregate: nil guards *)\n")
-	sb.WriteString("Definition quantile_nil_guards : list string := " + clu_list(qg) + ".\n")
+	sb.WriteString("Definition quantile_nil_guards : list string := " + clu_list(qg) + ".\n\n")
+
+	// quantile: every statement of Add, and of the loop of UnmarshalJSON, one line each
+	add := qt.method("E2eProcessingLatencyAggregate", "Add")
+	sb.WriteString("(* quantile.E2eProcessingLatencyAggregate.Add: its statements (model/Quantile.v: eagg_add, add_value, merge_into) *)\n")
+	sb.WriteString("Definition quantile_add_body : list string := " + clu_list(clu_stmts(add.Body.List)) + ".\n\n")
+	var loop []string
+	ast.Inspect(qt.method("E2eProcessingLatencyAggregate", "UnmarshalJSON").Body, func(nd ast.Node) bool {
+		if rs, ok := nd.(*ast.RangeStmt); ok {
+			loop = append(loop, clu_stmts([]ast.Stmt{rs})...)
+			return false
+		}
+		return true
+	})
+	sb.WriteString("(* quantile.E2eProcessingLatencyAggregate.UnmarshalJSON: its loop over the decoded entries (decode_pct) *)\n")
+	sb.WriteString("Definition quantile_unmarshal_loop : list string := " + clu_list(loop) + ".\n")
 	return sb.String(), nil
+}
+
+// clu_stmts renders statements one per line (blocks bracketed by "... {" and "}")
+func clu_stmts(list []ast.Stmt) []string {
+	var out []string
+	exprs := func(es []ast.Expr) string {
+		var p []string
+		for _, e := range es {
+			p = append(p, adm_condText(e))
+		}
+		return strings.Join(p, ", ")
+	}
+	for _, st := range list {
+		switch x := st.(type) {
+		case *ast.AssignStmt:
+			out = append(out, exprs(x.Lhs)+" "+x.Tok.String()+" "+exprs(x.Rhs))
+		case *ast.IfStmt:
+			out = append(out, "if "+adm_condText(x.Cond)+" {")
+			out = append(out, clu_stmts(x.Body.List)...)
+			if x.Else != nil {
+				out = append(out, "} else {")
+				out = append(out, clu_stmts([]ast.Stmt{x.Else})...)
+			}
+			out = append(out, "}")
+		case *ast.BlockStmt:
+			out = append(out, clu_stmts(x.List)...)
+		case *ast.RangeStmt:
+			h := "for "
+			if x.Key != nil {
+				h += adm_condText(x.Key)
+				if x.Value != nil {
+					h += ", " + adm_condText(x.Value)
+				}
+				h += " " + x.Tok.String() + " "
+			}
+			out = append(out, h+"range "+adm_condText(x.X)+" {")
+			out = append(out, clu_stmts(x.Body.List)...)
+			out = append(out, "}")
+		case *ast.BranchStmt:
+			out = append(out, x.Tok.String())
+		case *ast.ReturnStmt:
+			out = append(out, strings.TrimSpace("return "+exprs(x.Results)))
+		case *ast.ExprStmt:
+			out = append(out, adm_condText(x.X))
+		default:
+			out = append(out, "?")
+		}
+	}
+	return out
 }
